@@ -412,4 +412,8 @@ class CRDTStore(Entity):
         if cls is None:
             logger.warning("[%s] Unknown CRDT type: %s", self.name, crdt_type)
             return None
-        return cls.from_dict(data)
+        # Merge into a fresh replica owned by this node: adopting the remote
+        # node_id would make both nodes update the same per-node slot/tag space.
+        local = cls(self.name)
+        local.merge(cls.from_dict(data))
+        return local
